@@ -69,6 +69,12 @@ class Scenario:
         self.params = params
         self.pattern = pattern
         self.nss = nss
+        # 'loss_after_ns_disconnect': the server first ends one namespace (not
+        # the last one), then the transport is lost by accident: the retries
+        # still ask for every namespace of the original connection
+        self.pre_disc = cause == 'loss_after_ns_disconnect'
+        if self.pre_disc:
+            cause = 'loss'
         self.cause = cause
         self.abort_at = abort_at
         self.then = then
@@ -191,6 +197,9 @@ class Scenario:
         h = self.h
         c = self.cause
         if c in ('loss', 'disabled'):
+            if self.pre_disc and len(self.nss) > 1:
+                h.server_send(R.DISCONNECT, self.nss[0])
+                self.ctx.count('namespace_ended_before_the_loss')
             h.lose()
         elif c == 'client_disconnect':
             h.api('disconnect')
@@ -259,6 +268,11 @@ class Scenario:
 
             async def cause():
                 if cse in ('loss', 'disabled'):
+                    if self.pre_disc and len(self.nss) > 1:
+                        h.deliver(R.DISCONNECT, self.nss[0])
+                        await asyncio.sleep(0)
+                        await asyncio.sleep(0)
+                        self.ctx.count('namespace_ended_before_the_loss')
                     await h.a_lose()
                 elif cse == 'client_disconnect':
                     await c.disconnect()
@@ -447,6 +461,7 @@ def run(ctx):
         'shutdown() during back-off is issued while the reconnect task is '
         'blocked in its wait (threaded: from inside the wait hook)']
     ctx.require('scenarios_judged', 300)
+    ctx.require('namespace_ended_before_the_loss', 4)
     ctx.require('backoff_waits_checked', 300)
     ctx.require('successful_reconnections', 50)
     ctx.require('efforts_given_up', 20)
@@ -462,6 +477,11 @@ def run(ctx):
             for kind in ('sync', 'async'):
                 for params in [(1, 5, 0.5, 0), (0.5, 1, 0, 6), (3, 10, 1, 3)]:
                     jobs.append((kind, params, p, 'loss', k, None))
+    for p in ['', 'T', 'N', 'TN']:
+        for kind in ('sync', 'async'):
+            for params in [(1, 5, 0, 0), (0.5, 1, 0.5, 3)]:
+                jobs.append((kind, params, p, 'loss_after_ns_disconnect',
+                             None, None))
     # intentional ends
     for cause in ('client_disconnect', 'server_disconnect_last',
                   'server_close', 'disabled'):
